@@ -9,7 +9,7 @@ from ..engine.match import Spec, loop_doms, require_return, residual
 from ..engine.repo import AnalysisError
 from ..engine.report import Check
 from ..engine.sql import Schema, _tokens
-from ..engine.terms import C, Term, show
+from ..engine.terms import C, Term, mk_and, show
 from ..engine.walker import Event, Summary
 from .c07 import DT, SG, extractor
 from .common import short
@@ -93,6 +93,8 @@ class Writer:
         self.rows: Dict[str, Tuple[Tuple[Term, ...], Event]] = {}
         self.row_doms: Dict[str, List[Term]] = {}
         self.execs: List[Event] = []
+        self.filtered: Dict[str, Tuple[str, str]] = {}     # table -> (condition under which a row is written, location)
+        self.reordered: Dict[str, Tuple[str, str]] = {}    # table -> (what changed the finished row list, location)
         s = self.summ
         appends: Dict[Term, List[Event]] = {}
         for e in s.events:
@@ -109,12 +111,15 @@ class Writer:
             if not ins:
                 continue
             lst = e.term[2][1]
+            while lst[0] == "call" and lst[1][0] == "g" and (lst[1][1] == "builtin:sorted" or lst[1][1].startswith("builtin:changed_by_")) and lst[2]:
+                self.reordered[ins[0].table] = (lst[1][1].split(":")[-1].replace("changed_by_", "."), e.loc)
+                lst = lst[2][0]
             if lst[0] == "comp" and lst[1] == "list" and lst[2][0] == "tuple":
                 # rows built by a loop of appends (normalised) or written as a comprehension
                 self.rows[ins[0].table] = (lst[2][1], e)
                 self.row_doms[ins[0].table] = [g[0] for g in lst[3]]
                 if any(g[1] for g in lst[3]):
-                    raise AnalysisError("rows for table %s are filtered: %s" % (ins[0].table, show(lst)[:80]))
+                    self.filtered[ins[0].table] = (show(mk_and([c for g in lst[3] for c in g[1]]))[:160], e.loc)
                 continue
             aps = appends.get(lst, [])
             if len(aps) != 1 or aps[0].term[2][0][0] != "tuple":
@@ -122,7 +127,7 @@ class Writer:
             self.rows[ins[0].table] = (aps[0].term[2][0][1], aps[0])
             self.row_doms[ins[0].table] = list(loop_doms(aps[0]))
             if residual(aps[0], ()):
-                raise AnalysisError("rows for table %s are appended conditionally" % ins[0].table)
+                self.filtered[ins[0].table] = (show(mk_and([c.term for c in residual(aps[0], ())]))[:160], aps[0].loc)
 
 
 def col_index(ck: Check, table: str, col: str) -> int:
@@ -149,6 +154,10 @@ def r08_1(ck: Check) -> None:
         else:
             ck.violated("R08.1", construct, "placeholders %d, columns %d, tuple elements %s" % (ins.arity, ncols, len(rows[0]) if rows else None), where)
     ck.expect_count("R08.1", "INSERT statements", len(sch.inserts), 4)
+    for table, (cond, where) in sorted(w.filtered.items()):
+        ck.violated("R08.1", "%s: a row is written for every element of the batch" % table,
+                    "rows are written only when %s — whatever the batch holds must come back on reload: a block left out here is never stored "
+                    "(the buffer is cleared after the flush) and its descendants fail the foreign key" % cond, where)
     blocks = ("v", w.summ.fi.params[1])
     b = ("e", blocks, "elem")
     tx = ("e", ("a", b, "transactions"), "elem")
@@ -360,6 +369,24 @@ def r08_4(ck: Check) -> None:
         ck.ok("R08.4", construct, "", "%s:%d" % (sch.module.path, sel[0].line))
     else:
         ck.violated("R08.4", construct, "ORDER BY is %s" % (sel[0].order_by if sel else None), sch.module.path)
+    # every stored block is read back: the reader yields for every row of the chain table - the only rows it may pass over are those
+    # no transaction was found for (a block always carries its reward transaction, so that test selects nothing that was written whole)
+    rs = ck.summ(STORE + "read_blocks_from_disk", 0)
+    ys = [e for e in rs.events if e.kind == "yield"]
+    construct = "read_blocks_from_disk yields a block for every chain row that has transactions, whatever they look like"
+    if len(ys) == 1:
+        conds = residual(ys[0], ())
+        extra = [c for c in conds if not (c.term[0] == "cmp" and c.term[1] == "in" and row_col(c.term[2]) == ("chain", "block_hash"))]
+        early = any(l[2] for l in ys[0].loops)
+        if extra or early or len(conds) > 1:
+            from ..engine.terms import show as _show
+            ck.violated("R08.4", construct, "a stored block is passed over on reload %s — its descendants then arrive without their parent and the "
+                        "restarted node ends on a lower head" % ("when not (%s)" % _show(extra[0].term)[:160] if extra else "(the row loop can end early)"),
+                        ys[0].loc)
+        else:
+            ck.ok("R08.4", construct, "", ys[0].loc)
+    else:
+        ck.violated("R08.4", construct, "%d yields" % len(ys), rs.fi.loc)
     q = "skepticoin.scripts.utils.read_chain_from_disk"
     s = ck.summ(q, 0)
     it = ("call", ("a", ("a", ("g", BS + "DefaultBlockStore"), "instance"), "read_blocks_from_disk"), (), ())
@@ -383,6 +410,13 @@ def r08_5(ck: Check) -> None:
         txt = e.term[2][0][1].strip().lower() if e.term[2] and e.term[2][0][0] == "c" else "?"
         if not txt.startswith("rollback"):
             ck.violated("R08.5", "write_blocks_to_disk: a failure handler issues nothing but ROLLBACK", "it executes %r" % txt[:60], e.loc)
+    # what runs in a `finally` also runs when a statement of the batch failed: a COMMIT there makes half a batch durable
+    for e in ex:
+        txt = e.term[2][0][1].strip().lower() if e.term[2] and e.term[2][0][0] == "c" else "?"
+        if e.finally_of and not txt.startswith("rollback") and any(x is not e and ti in x.tries for x in ex for ti in e.finally_of):
+            ck.violated("R08.5", "write_blocks_to_disk: nothing is committed after a statement of the batch failed",
+                        "%r sits in a `finally:` — it also runs when an insert raised, and the rows inserted up to that point (blocks without "
+                        "their transactions, transactions without their inputs) become permanent" % txt[:40], e.loc)
     construct = "write_blocks_to_disk: BEGIN; all INSERTs; COMMIT on one cursor, once"
     texts = [(e.parts[0][2], e.term[2][0][1].strip().lower() if e.term[2] and e.term[2][0][0] == "c" else "?") for e in ex]
     curs = {e.parts[0][1] for e in ex}
